@@ -7,7 +7,10 @@
 (*               (Shutdown!ConnKinds: which phase of a request meets the   *)
 (*               status flip / the listener close / the return), hooks the *)
 (*               OnShutdown hooks (hook 1 is the driver's fast signal      *)
-(*               hook; "slow" = wait/4, "beyond" = 1.5 x wait), second =   *)
+(*               hook; "slow" = wait/4, "beyond" = wait + Slack(wait) +    *)
+(*               500 ms, ignoring its context: well beyond the bound on    *)
+(*               the return; such schedules use the short BeyondWait),     *)
+(*               second =                                                  *)
 (*               when a second Shutdown call is made ("during": after the  *)
 (*               first is known to have begun; "after": after it returned; *)
 (*               "closed": after Run returned; "race": together with the   *)
@@ -24,12 +27,12 @@
 (* Families (every transport): all single kinds; unordered pairs (all when *)
 (* PairMod = 1, else the seeded 1/PairMod sample); NTriple seeded triples  *)
 (* plus the canonical busy / idle keep-alive / mid-request triple; hook    *)
-(* sets x {no connection, bA, bL, iK}; second caller x {bA, bL, iK+bA};    *)
+(* sets x {no connection, bA, bL, iK, cL}; second caller x {bA, bL, iK+bA}; *)
 (* NRand seeded random-timing schedules.  Seed = IOEnv.VERIF_SEED.         *)
 (***************************************************************************)
 EXTENDS Shutdown, Json, IOUtils, SequencesExt
 
-CONSTANTS PairMod, NTriple, HookMod, SecondMod, NRand, Waits, LongWaits, Idles, Trials
+CONSTANTS PairMod, NTriple, HookMod, SecondMod, NRand, Waits, LongWaits, Idles, Trials, BeyondWait
 
 Seed == atoi(IOEnv.VERIF_SEED)
 
@@ -41,9 +44,10 @@ LongThorough == <<2000, 2000, 3000, 2500, 2000, 3000>>
 IdlesQuick == <<0, 0, 0, 60>>
 IdlesThorough == <<0, 0, 60, 0>>
 
-K == <<"sB", "iK", "iR", "bA", "bL", "mR", "fR", "bW", "dD", "rR">>
+K == <<"sB", "iK", "iR", "bA", "bL", "mR", "fR", "bW", "dD", "aL", "cL", "rR">>
 ASSUME {K[i] : i \in DOMAIN K} = ConnKinds
-Forced == 1 .. 9                        \* index of the gate-forced kinds (everything but rR)
+NF == 11
+Forced == 1 .. NF                       \* index of the gate-forced kinds (everything but rR)
 TP == <<"standard", "netpoll">>
 
 H(x) == (x * 75 + 74) % 65537           \* small integer hash (every intermediate < 2^31)
@@ -52,9 +56,12 @@ Pick(s, x) == s[(x % Len(s)) + 1]
 Blank == [id |-> 0, cls |-> "run", tp |-> "standard", waitMs |-> 0, idleMs |-> 0, conns |-> << >>,
           hooks |-> <<"fast">>, second |-> "none", jit |-> 0, seed |-> 0, trials |-> 0]
 
+\* the OnAccept callback of the netpoll transport runs inside the poller: it is gated on the standard transport only
+ForTransport(tp, conns) == [i \in DOMAIN conns |-> IF tp = "netpoll" /\ conns[i] = "aL" THEN "cL" ELSE conns[i]]
+HasBeyond(hooks) == \E i \in DOMAIN hooks : hooks[i] = "beyond"
 RunCase(tp, conns, hooks, second, x) ==
-    [Blank EXCEPT !.tp = tp, !.conns = conns, !.hooks = hooks, !.second = second,
-                  !.waitMs = Pick(Waits, H(x + Seed)), !.idleMs = Pick(Idles, H(x + 3 * Seed + 1) \div 7), !.seed = H(x + Seed * 131)]
+    [Blank EXCEPT !.tp = tp, !.conns = ForTransport(tp, conns), !.hooks = hooks, !.second = second,
+                  !.waitMs = IF HasBeyond(hooks) THEN BeyondWait ELSE Pick(Waits, H(x + Seed)), !.idleMs = Pick(Idles, H(x + 3 * Seed + 1) \div 7), !.seed = H(x + Seed * 131)]
 
 Singles(tp) == [i \in 1 .. Len(K) |-> [RunCase(tp, <<K[i]>>, <<"fast">>, "none", i) EXCEPT !.jit = IF K[i] = "rR" THEN 1 ELSE 0]]
 
@@ -65,13 +72,13 @@ Triples(tp) ==
     <<RunCase(tp, <<"bA", "iK", "mR">>, <<"fast">>, "none", 1), RunCase(tp, <<"bL", "iR", "mR">>, <<"fast", "slow">>, "none", 2)>> \o
     [t \in 1 .. NTriple |->
        LET a == H(t + Seed * 131) b == H(a + t) c == H(b + 3 * t)
-       IN  RunCase(tp, <<K[(a % 9) + 1], K[(b % 9) + 1], K[(c % 9) + 1]>>, <<"fast">>, "none", a + b + c)]
+       IN  RunCase(tp, <<K[(a % NF) + 1], K[(b % NF) + 1], K[(c % NF) + 1]>>, <<"fast">>, "none", a + b + c)]
 
 HookSets == <<<<"fast", "slow">>, <<"fast", "beyond">>, <<"fast", "slow", "beyond">>, <<"fast", "fast", "slow">>>>
-HookConns == << << >>, <<"bA">>, <<"bL">>, <<"iK">> >>
+HookConns == << << >>, <<"bA">>, <<"bL">>, <<"iK">>, <<"cL">> >>
 HookCases(tp) ==
     LET idx == {p \in (1 .. Len(HookSets)) \X (1 .. Len(HookConns)) :
-                  (p[1] * 5 + p[2] * 3 + Seed) % HookMod = 0 \/ p = <<2, 2>> \/ p = <<3, 1>> \/ p = <<2, 3>>}
+                  (p[1] * 5 + p[2] * 3 + Seed) % HookMod = 0 \/ p = <<2, 2>> \/ p = <<3, 1>> \/ p = <<2, 3>> \/ p = <<2, 1>>}
     IN  SetToSeq({RunCase(tp, HookConns[p[2]], HookSets[p[1]], "none", p[1] * 7 + p[2]) : p \in idx})
 
 Seconds == <<"during", "after", "closed", "race">>
@@ -85,7 +92,7 @@ RandCases(tp) ==
     [t \in 1 .. NRand |->
        LET a == H(t * 7 + Seed * 977) b == H(a + 1) c == H(b + 1)
            n == (a % 3) + 1
-           kind(x) == IF x % 4 = 0 THEN K[(((x \div 4) % 9)) + 1] ELSE "rR"
+           kind(x) == IF x % 4 = 0 THEN K[(((x \div 4) % NF)) + 1] ELSE "rR"
        IN  [RunCase(tp, [i \in 1 .. n |-> kind(H(a + i * 19))], Pick(HookSets, b \div 5), Pick(<<"none", "none", "during", "race">>, c \div 3), a)
               EXCEPT !.jit = 1]]
 
